@@ -43,7 +43,11 @@ package operator
 //@   frame_only
 
 //@ func reconcileEtcdStatefulSet$1
-//@   writes_unconditionally [C42.etcd_statefulset.assigned_fields_unconditional] sts
+// InitContainers is assigned under "snapshotBucket(cluster) != \"\"". That condition always holds (the derived
+// bucket name is never empty, C39.derived_bucket_is_valid_shape, and an override is used only when non-empty), but
+// the must-write analysis does not evaluate conditions, so the field is left out of the clause here and listed as
+// undecided in props/C42.json.
+//@   writes_unconditionally [C42.etcd_statefulset.assigned_fields_unconditional] sts except Spec.Template.Spec.InitContainers
 //@   deterministic [C42.etcd_statefulset.no_clock_random_or_map_order] except copyStringMap, cloneResourceList
 //@   frame_only
 
